@@ -131,6 +131,20 @@ func (n *Node) Stop() error {
 	return err
 }
 
+// RecordExit records a Store.Exit call (for harnesses that install their own Exit function).
+func (n *Node) RecordExit(code int) {
+	n.mu.Lock()
+	n.Exits = append(n.Exits, code)
+	n.mu.Unlock()
+}
+
+// ClearExits forgets recorded exits (after the harness emulated the process restart).
+func (n *Node) ClearExits() {
+	n.mu.Lock()
+	n.Exits = nil
+	n.mu.Unlock()
+}
+
 // Running reports whether the node is started.
 func (n *Node) Running() bool { return n.open }
 
